@@ -7,6 +7,7 @@
     goroutine release are observed by the harness, not proved. Statements only;
     proofs in Proofs/Tdc.v. *)
 From Verif Require Import Base.Prelude Gen.Constants Model.Tdc Proofs.Tdc.
+From Verif Require Model.Lazy Proofs.Lazy.
 Open Scope N_scope.
 
 (** Any write error, read error / EOF / deadline expiry, or Close closes the connection. *)
@@ -92,6 +93,34 @@ Example c07_nonvacuous :
          LSelect 0 SelClose; LTake 0; LSelect 1 SelClose; LTake 1; LReserve 2 3] with
   | Some s => cres (calls s 0%nat) = Some (RErr ERead) /\ cres (calls s 1%nat) = Some (RErr ERead)
               /\ cres (calls s 2%nat) = Some (RRefused true) /\ live s = []
+  | None => False
+  end.
+Proof. vm_compute. repeat split; reflexivity. Qed.
+
+(** * Dial level (lazyDnsConn, Model.Lazy) *)
+Import Model.Lazy Proofs.Lazy.
+
+(** A caller queued on a connection that is still dialing is woken by the end
+    of the dial — success, error, or Close cancelling it — and by its context. *)
+Theorem c07_early_waiter_wakes s c :
+  qpc (lcalls s c) = QEarlyWait ->
+  (ldial s <> Dialing -> exists s', lstep s (ZGo c) = Some s') /\
+  (qctx (lcalls s c) = true -> exists s', lstep s (ZCtxExit c) = Some s').
+Proof. exact (early_waiter_wakes s c). Qed.
+Print Assumptions c07_early_waiter_wakes.
+
+(** After Close, in every reachable state, a reservation that gets through is refused as closed. *)
+Theorem c07_lazy_after_close_refuses maxq im ls s c s' :
+  lrun (linit maxq im) ls = Some s -> lclosed s = true ->
+  lstep s (ZReserve c) = Some s' -> qres (lcalls s' c) = Some (LRRefused true).
+Proof. exact (lazy_after_close_refuses maxq im ls s c s'). Qed.
+Print Assumptions c07_lazy_after_close_refuses.
+
+(** Non-vacuity: Close while dialing wakes both queued callers with the cancellation error. *)
+Example c07_lazy_nonvacuous :
+  match lrun (linit 3 3) [ZReserve 0; ZReserve 1; ZStart 0; ZStart 1; ZClose; ZGo 0; ZGo 1; ZReserve 2] with
+  | Some s => qres (lcalls s 0%nat) = Some (LRErr LECancelled) /\ qres (lcalls s 1%nat) = Some (LRErr LECancelled)
+              /\ qres (lcalls s 2%nat) = Some (LRRefused true) /\ lreserved s = 0
   | None => False
   end.
 Proof. vm_compute. repeat split; reflexivity. Qed.
